@@ -637,6 +637,22 @@ impl Scenario for C04 {
                 b.push(Step::Deliver { tok, node, key: vkey, purpose: None, faults: vec![], pk: None, fk: Some(fk2), validator: VSpec::None, alias: false, now_ns: now, pair_with: None });
             }
         }
+        // claims documents whose members have values of every JSON type and numeric shape, and arrays shaped
+        // like the claims: decoded directly, as the payload of a conforming token read as RegisteredClaims,
+        // and as a typed (JSON) footer
+        for json in crate::props::c11::odd_claim_documents(&mut b, 2) {
+            b.push(Step::Codec { case: crate::plan::CodecCase::RegForeign { json: json.clone(), must_accept: false } });
+            if b.rng.chance(1, 3) {
+                let tok = b.tok_slot();
+                let nl = crate::world::nonce_len(f, Purp::Local);
+                let nonce = b.bytes(nl);
+                b.push(Step::RefSeal { tok, family: f, key: fk.local, purpose: Purp::Local, payload: Bytes::hex(json.as_bytes()), footer: Bytes::hex(json.as_bytes()), aad: Bytes::empty(), nonce, suffix: String::new() });
+                for node in 0..nodes.len() {
+                    b.push(Step::Deliver { tok, node, key: fk.local, purpose: None, faults: vec![], pk: Some(crate::backend::PayloadKind::Reg), fk: Some(crate::backend::FootKind::Json), validator: VSpec::TimeAt(now), alias: false, now_ns: now, pair_with: None });
+                    b.push(Step::Deliver { tok, node, key: fk.local, purpose: None, faults: vec![], pk: Some(crate::backend::PayloadKind::Json), fk: Some(crate::backend::FootKind::Bytes), validator: VSpec::None, alias: false, now_ns: now, pair_with: None });
+                }
+            }
+        }
         let pw = SecretRef::Password { bytes: Bytes::hex(b"pw") };
         // raw contents of this run's length offered to every parser
         for (node, bk) in nodes.iter().enumerate() {
